@@ -471,6 +471,54 @@ theorem bitsMatch_never_panics (a b : Addr) (n : Int) : bitsMatch a b n ≠ none
           | nil => have := List.drop_eq_nil_iff.mp hdb; omega
           | cons y ys => simp
 
+theorem xor_eq_zero_imp (a b : Nat) (h : a ^^^ b = 0) : a = b := by
+  have h1 : (a ^^^ b) ^^^ b = a := by rw [Nat.xor_assoc, Nat.xor_self, Nat.xor_zero]
+  rw [h] at h1
+  simpa using h1.symm
+
+theorem xor_lt_iff_div_eq (x y k : Nat) : x ^^^ y < 2^k ↔ x / 2^k = y / 2^k := by
+  have hp : 0 < 2^k := Nat.two_pow_pos k
+  rw [← Nat.div_eq_zero_iff_lt hp, ← Nat.shiftRight_eq_div_pow, Nat.shiftRight_xor_distrib,
+    Nat.shiftRight_eq_div_pow, Nat.shiftRight_eq_div_pow]
+  constructor
+  · exact xor_eq_zero_imp _ _
+  · intro h; rw [h, Nat.xor_self]
+
+theorem lz8_ge_iff (z r : Nat) (hz : z < 256) (hr1 : 1 ≤ r) (hr7 : r ≤ 7) : leadingZeros8 z ≥ r ↔ z < 2^(8-r) := by
+  have : r = 1 ∨ r = 2 ∨ r = 3 ∨ r = 4 ∨ r = 5 ∨ r = 6 ∨ r = 7 := by omega
+  unfold leadingZeros8
+  rcases this with rfl | rfl | rfl | rfl | rfl | rfl | rfl <;>
+    simp only [Nat.reduceSub, Nat.reducePow] <;> (repeat' split) <;> omega
+
+theorem partial_byte_match (x y r : Nat) (hx : x < 256) (hy : y < 256) (hr1 : 1 ≤ r) (hr7 : r ≤ 7) :
+    leadingZeros8 (x ^^^ y) ≥ r ↔ x / 2^(8-r) = y / 2^(8-r) := by
+  have hz : x ^^^ y < 2^8 := Nat.xor_lt_two_pow (by simpa using hx) (by simpa using hy)
+  rw [lz8_ge_iff _ r (by simpa using hz) hr1 hr7, xor_lt_iff_div_eq]
+
+/-- `bitsMatch a b n` for an in-range n: the first ⌊n/8⌋ bytes are equal and the top n mod 8 bits of the next byte are
+equal — i.e. the two byte strings agree on their first n bits -/
+theorem bitsMatch_spec (a b : Addr) (n : Nat) (hna : n ≤ a.length * 8) (hnb : n ≤ b.length * 8)
+    (ha : ∀ x ∈ a, x < 256) (hb : ∀ y ∈ b, y < 256) :
+    bitsMatch a b (n : Int) = some true ↔
+      a.take (n / 8) = b.take (n / 8) ∧
+      (n % 8 = 0 ∨ ∃ x y, a[n / 8]? = some x ∧ b[n / 8]? = some y ∧ x / 2^(8 - n % 8) = y / 2^(8 - n % 8)) := by
+  unfold bitsMatch
+  have hg : ¬ ((n:Int) < 0 ∨ (n:Int) > (a.length:Int) * 8 ∨ (n:Int) > (b.length:Int) * 8) := by omega
+  rw [if_neg hg]
+  simp only [Int.toNat_natCast]
+  by_cases ht : a.take (n/8) = b.take (n/8)
+  · simp only [ht, ne_eq, not_true_eq_false, if_false, true_and]
+    by_cases hk : n % 8 = 0
+    · simp [hk]
+    · simp only [hk, if_false, false_or]
+      have hla : n / 8 < a.length := by omega
+      have hlb : n / 8 < b.length := by omega
+      rw [List.drop_eq_getElem_cons hla, List.drop_eq_getElem_cons hlb]
+      simp only [Option.some.injEq, decide_eq_true_eq]
+      rw [partial_byte_match _ _ _ (ha _ (List.getElem_mem hla)) (hb _ (List.getElem_mem hlb)) (by omega) (by omega)]
+      simp [List.getElem?_eq_getElem hla, List.getElem?_eq_getElem hlb]
+  · simp [ht]
+
 /-- an active challenge returned by FindChallenge was issued at the last multiple of the interval, more than one and
 at most two grace periods ago, with the seed of that round's header and unchanged payout rules -/
 theorem findChallenge_active (rules : Rules) (cur : Nat) (hdr : Nat → Option (Addr × Bool)) (ch : Challenge)
@@ -556,5 +604,6 @@ example : AbsentByRule 1000 500 10 100 := by unfold AbsentByRule; decide
 example : ([[1], [2], [3]] : List Addr).Nodup := by decide
 example : generate exEnv [[3]] ([[1], [2], [3]].map (candOf exState)) = ([[1]], [[2]]) := by decide
 example : bitsMatch [0xAF, 0] [0xA9, 7] 5 = some true ∧ bitsMatch [0xAF, 0] [0xA9, 7] 6 = some false := by decide
+example : (5 : Nat) ≤ ([0xAF, 0] : Addr).length * 8 ∧ (∀ x ∈ ([0xAF, 0] : Addr), x < 256) ∧ 0xAF / 2^(8 - 5 % 8) = 0xA9 / 2^(8 - 5 % 8) := by decide
 
 end Props.C27
